@@ -84,18 +84,50 @@ def make_case(r):
             continue
         wp = (p, alts)
         break
+    # a twin word of the same shape (same number of alternatives): the bash emitter shares one function per shape
+    # and writes the literal tables of such words at another place than those of a word with a shape of its own
+    wp2 = None
+    if wp and r.random() < 0.6:
+        for _ in range(30):
+            p = rand_string(r)
+            alts = [rand_string(r) for _ in range(len(wp[1]))]
+            if not usable_literal(p) or not all(usable_literal(a) for a in alts):
+                continue
+            if len(set(alts)) != len(alts) or p in alts or not prefix_free(alts + [p]):
+                continue
+            if len({a[0] for a in alts}) != len(alts):
+                continue
+            if any(t.startswith(p) or p.startswith(t) for t in tops + [wp[0]]):
+                continue
+            if set(alts) & set(wp[1]) or p in wp[1] or wp[0] in alts:
+                continue
+            wp2 = (p, alts)
+            break
     branches = [lit(t, descs.get(t)) for t in tops]
     wdescs = {}
-    if wp:
+    described = None
+    for w in (wp, wp2):
+        if not w:
+            continue
         walts = []
-        for a in wp[1]:
-            d = r.choice(DESCRS) if r.random() < 0.3 else None
+        if described is None:
+            described = [r.random() < 0.3 for _ in w[1]]
+        for a, has in zip(w[1], described):
+            d = r.choice(DESCRS) if has else None
             if d:
                 wdescs[a] = d
             walts.append(lit(a, d))
-        branches.append(('word', (lit(wp[0]), alt(*walts))))
+        branches.append(('word', (lit(w[0]), alt(*walts))))
+    if wp2:
+        wp = (wp[0], wp[1], wp2)
     e = seq(alt(*branches) if len(branches) > 1 else branches[0], lit('tail'))
     return [call('cmd', e)], tops, descs, wp, wdescs
+
+
+def words_of(wp):
+    if not wp:
+        return []
+    return [(wp[0], wp[1])] + ([wp[2]] if len(wp) > 2 else [])
 
 
 def near_misses(t, r):
@@ -129,8 +161,8 @@ def near_misses(t, r):
 def static_checks(text, shell, script, tops, descs, wp, wdescs, acc, base):
     want_lits = set(tops) | {'tail'}
     want_desc = set(descs.values()) | set(wdescs.values())
-    if wp:
-        want_lits |= {wp[0]} | set(wp[1])
+    for w in words_of(wp):
+        want_lits |= {w[0]} | set(w[1])
     try:
         if shell == 'bash':
             lists = readers.bash_text_constants(script)
@@ -204,22 +236,23 @@ def run_job(job, acc):
             # queries
             qs = []
             wbd = bashrun.wordbreaks()
-            first_items = set(tops) | ({wp[0]} if wp else set())
-            qs.append((['cmd', ''], '', {t + ' ' for t in tops} | ({wp[0]} if wp else set()), 'empty-prefix', True))
+            words = words_of(wp)
+            wprefixes = [w[0] for w in words]
+            first_items = set(tops) | set(wprefixes)
+            qs.append((['cmd', ''], '', {t + ' ' for t in tops} | set(wprefixes), 'empty-prefix', True))
             for t in tops:
                 qs.append((['cmd', t, ''], '', {'tail '}, 'literal-recognised', True))
                 for nm in near_misses(t, r)[:4]:
-                    if nm in first_items or (wp and nm.startswith(wp[0])):
+                    if nm in first_items or any(nm.startswith(x) for x in wprefixes):
                         continue
                     qs.append((['cmd', nm, ''], '', set(), 'near-miss-rejected', True))
                 k = r.randint(1, len(t))
                 p = t[:k]
-                exp = {x + ' ' for x in tops if x.startswith(p)} | ({wp[0]} if wp and wp[0].startswith(p) else set())
+                exp = {x + ' ' for x in tops if x.startswith(p)} | {x for x in wprefixes if x.startswith(p)}
                 for wb in ('', wbd):
                     stripped = refrun.strip_wordbreaks(exp, p, wb)
                     qs.append((['cmd', p], wb, stripped, 'prefix', True))
-            if wp:
-                p0, alts = wp
+            for p0, alts in words:
                 qs.append((['cmd', p0], '', {p0 + a for a in alts}, 'word-prefix', True))
                 for a in alts:
                     qs.append((['cmd', p0 + a, ''], '', {'tail '}, 'word-recognised', True))
